@@ -82,6 +82,38 @@ EX long vk_offsetof(const char* n) {
     return -1;
 }
 
+/* ------------------------------------------------------------------ C20 write-protection monitor: fault classifier
+ * Installed BEFORE the library's writable segments are made read-only.  A SIGSEGV whose faulting address lies inside a
+ * protected range is a store to library-global state: report it and exit with status 77.  Any other fault is not the
+ * monitor's business: restore the default action and return, so the faulting instruction re-executes and the process dies
+ * the ordinary way. */
+#include <signal.h>
+#include <unistd.h>
+static uintptr_t vk_wp_lo[16], vk_wp_hi[16];
+static int vk_wp_n = 0;
+static void vk_wp_handler(int sig, siginfo_t* si, void*) {
+    uintptr_t a = (uintptr_t) si->si_addr;
+    for (int i = 0; i < vk_wp_n; i++) {
+        if (a >= vk_wp_lo[i] && a < vk_wp_hi[i]) {
+            static const char msg[] = "\nWRITE-PROTECT-FAULT: store to write-protected library memory\n";
+            ssize_t r = write(2, msg, sizeof(msg) - 1);
+            (void) r;
+            _exit(77);
+        }
+    }
+    signal(sig, SIG_DFL);
+}
+EX int vk_wp_install(const uint64_t* lo, const uint64_t* hi, int n) {
+    if (n > 16) return -1;
+    for (int i = 0; i < n; i++) { vk_wp_lo[i] = (uintptr_t) lo[i]; vk_wp_hi[i] = (uintptr_t) hi[i]; }
+    vk_wp_n = n;
+    struct sigaction sa;
+    memset(&sa, 0, sizeof(sa));
+    sa.sa_sigaction = vk_wp_handler;
+    sa.sa_flags = SA_SIGINFO | SA_NODEFER;
+    sigemptyset(&sa.sa_mask);
+    return sigaction(SIGSEGV, &sa, nullptr);
+}
 EX int vk_word_bits(void) { return 8 * (int) sizeof(BigInt<384>::word_t); }
 EX int vk_asm_enabled(void) {
 #ifdef DISABLE_ASM
